@@ -136,11 +136,18 @@ def tlc(module, cfg, *, workers=1, simulate=None, depth=None, tlc_seed=None, env
     if env:
         e.update(env)
     t0 = time.time()
-    try:
-        p = subprocess.run(cmd, cwd=d, env=e, stdout=subprocess.PIPE, stderr=subprocess.STDOUT,
-                           timeout=timeout, text=True, errors="replace")
-    except subprocess.TimeoutExpired:
-        raise Inconclusive("TLC timeout after %ds: %s %s" % (timeout, module, cfg))
+    for attempt in range(3):
+        try:
+            p = subprocess.run(cmd, cwd=d, env=e, stdout=subprocess.PIPE, stderr=subprocess.STDOUT,
+                               timeout=timeout, text=True, errors="replace")
+        except subprocess.TimeoutExpired:
+            raise Inconclusive("TLC timeout after %ds: %s %s" % (timeout, module, cfg))
+        # a JVM killed from outside (SIGTERM/SIGKILL by another job on this machine) is simply run again
+        if p.returncode in (-15, -9, 137, 143, 144) and "Finished in" not in p.stdout:
+            log("tlc %s %s was killed from outside (rc=%d), retrying" % (module, cfg, p.returncode))
+            shutil.rmtree(os.path.join(d, "meta"), ignore_errors=True)
+            continue
+        break
     res = TLCResult(p.stdout, p.returncode, time.time() - t0)
     log("tlc %s %s%s: %.1fs gen=%d distinct=%d" % (module, cfg, (" [" + label + "]") if label else "", res.wall, res.generated, res.distinct))
     shutil.rmtree(d, ignore_errors=True)
